@@ -288,7 +288,7 @@ impl Vegas {
 
         let new_limit = if queue_estimate < self.alpha {
             // Under-utilized, increase
-            (current_limit + 1).min(self.max_limit)
+            current_limit.saturating_add(1).min(self.max_limit)
         } else if queue_estimate > self.beta {
             // Congested, decrease
             (current_limit.saturating_sub(1)).max(self.min_limit)
